@@ -371,6 +371,12 @@ def w_rotations(ctx, rng, i):
         templates = [R(np.eye(3, dtype=int)), R(np.array([[0, -1, 0], [1, 0, 0], [0, 0, 1]])), R(np.array([[0, 0, 1], [1, 0, 0], [0, 1, 0]])), rr, R.init_identity(3)]
         tpl = templates[rng.integers(0, len(templates))]
         qq = unit_quaternion(rng)
+        if rng.random() < 0.15:
+            # "no rotation" - the scalar-only unit quaternion (exactly, or up to rounding) - is a parameter vector like any other
+            qq = np.array([1.0, 0.0, 0.0, 0.0])
+            if rng.random() < 0.5:
+                qq[1 + rng.integers(0, 3)] = 10.0 ** rng.uniform(-12, -9)
+                qq /= np.linalg.norm(qq)
         ctx.tap("quaternion_through_template", "calls"); ctx.tap("quaternion_through_template", "checked")
         try:
             got = tpl.from_vector(qq)
@@ -492,6 +498,11 @@ def w_scale_tcoords(ctx, rng, i):
             mt.Scale(0.0, n_dims=d)
         except ValueError:
             pass
+        # every factor zero (equal factors - and zero all the same)
+        try:
+            mt.Scale([np.zeros(d), [0] * d, (0.0,) * d, np.zeros(d, dtype=int)][rng.integers(0, 4)])
+        except ValueError:
+            pass
     elif mode == 3:
         mt.Scale(float(rng.uniform(0.2, 5)), n_dims=d)
         mt.Scale(float(rng.uniform(0.2, 5)), d)
@@ -511,7 +522,11 @@ def w_scale_tcoords(ctx, rng, i):
         # same image shape - spelled as a tuple, a list or an array - is not affected
         a.compose_before_inplace(mt.Translation(rng.uniform(0.5, 3, 2)))
         b.compose_after_inplace(mt.UniformScale(float(rng.uniform(1.5, 3)), 2))
-        shp2 = [tuple(shp), list(shp), np.array(shp)][rng.integers(0, 3)]
+        # (... or an array / a tuple of scalars of the unsigned type a file header stores the size in)
+        udt = [np.uint16, np.uint8, np.uint32, np.uint64][rng.integers(0, 4)]
+        if udt is np.uint8 and max(shp) > 255:
+            udt = np.uint16
+        shp2 = [tuple(shp), list(shp), np.array(shp), np.array(shp, dtype=udt), tuple(udt(v) for v in shp), np.array(shp, dtype=np.int16)][rng.integers(0, 6)]
         a2, b2 = mt.tcoords_to_image_coords(shp2), mt.image_coords_to_tcoords(shp2)
         ctx.tap("tcoords_requested_again", "calls"); ctx.tap("tcoords_requested_again", "checked")
         if tx.maxdiff(a2.apply(corners_t), corners_i) > 1e-9 * max(shp) or tx.maxdiff(b2.apply(corners_i), corners_t) > 1e-9:
